@@ -36,7 +36,51 @@ SWAPS = [(" <= ", " < "), (" < ", " <= "), (" >= ", " > "), (" > ", " >= "), (" 
          ("continue", "break"), ("break", "continue")]
 
 
+OPS = 1
+
+
+def mutants_of2(path, src):
+    """Second family: a constant nudged (0 <-> 1, "" -> "x"), nil tests inverted, two adjacent identifier arguments
+    swapped, `:=` for `=` (shadowing) where it still compiles, a `defer` call made immediate, else-branch dropped
+    is left to the first family. One mutant per occurrence."""
+    out = []
+    lines = src.split("\n")
+    for i, line in enumerate(lines):
+        s = line.strip()
+        if not s or s.startswith("//") or s.startswith("import") or s.startswith("package") or s.startswith("*") or s.startswith("/*"):
+            continue
+        code = line
+        def outside_str(k):
+            return code[:k].count('"') % 2 == 0 and code[:k].count('`') % 2 == 0
+        for m in re.finditer(r"(?<![\w.])0(?![\w.])", code):
+            if outside_str(m.start()):
+                out.append((path, i, code[:m.start()] + "1" + code[m.end():], "0 -> 1"))
+        for m in re.finditer(r"(?<![\w.])1(?![\w.])", code):
+            if outside_str(m.start()):
+                out.append((path, i, code[:m.start()] + "0" + code[m.end():], "1 -> 0"))
+        for m in re.finditer(r'""', code):
+            if code[:m.start()].count('"') % 2 == 0:
+                out.append((path, i, code[:m.start()] + '"x"' + code[m.end():], '"" -> "x"'))
+        for m in re.finditer(r"\(([A-Za-z_][\w.]*), ([A-Za-z_][\w.]*)([,)])", code):
+            if outside_str(m.start()) and m.group(1) != m.group(2):
+                out.append((path, i, code[:m.start()] + "(" + m.group(2) + ", " + m.group(1) + m.group(3) + code[m.end():], "swap args"))
+        m = re.match(r"^(\s*)([A-Za-z_][\w.]*(?:, [A-Za-z_][\w.]*)?) = (.*)$", line)
+        if m and "." not in m.group(2) and not s.endswith("{"):
+            out.append((path, i, m.group(1) + m.group(2) + " := " + m.group(3), "= -> :="))
+        if re.match(r"^\s*if .* == nil \{", line):
+            out.append((path, i, line.replace(" == nil {", " != nil {", 1), "== nil -> != nil"))
+        if " len(" in code and " > 0" in code:
+            out.append((path, i, code.replace(" > 0", " > 1", 1), "> 0 -> > 1"))
+        if "[1:]" in code:
+            out.append((path, i, code.replace("[1:]", "[0:]", 1), "[1:] -> [0:]"))
+        if "[:1]" in code:
+            out.append((path, i, code.replace("[:1]", "[:0]", 1), "[:1] -> [:0]"))
+    return out
+
+
 def mutants_of(path, src):
+    if OPS == 2:
+        return mutants_of2(path, src)
     out = []
     lines = src.split("\n")
     in_block_comment = False
@@ -150,6 +194,9 @@ def main():
             outp = args.pop(0)
         elif a == "-files":
             files = args.pop(0).split(",")
+        elif a == "-ops":
+            global OPS
+            OPS = int(args.pop(0))
     allm = []
     for f in files:
         allm += mutants_of(f, open(os.path.join("/repo", f)).read())
